@@ -229,6 +229,42 @@ def r4_no_accessor_bypass(w):
                     if K in g_['variant_of'][n] and (b.short, K) not in extra:
                         outs, wholes = se.evaluate(b, i, K, max_steps=60000, param_val=tip.typed(n, Node('parent', K)))
                         extra[(b.short, K)] = wholes if outs is not None else None
+    # ... and, because a helper may find its way through the children with a *scan* loop and convert a grandchild afterwards (seed C09/5A: the
+    # parenthesised operand of a fraction), on complete child sequences from the start: every Space of the sequence is in the returned document
+    seq_checked = []
+    for (fn, K) in sorted(k_ for k_ in extra if k_ not in se.wholes):
+        fb = [b_ for b_ in w.fn_bodies(w.core) if b_.short == fn]
+        if not fb:
+            continue
+        b_ = fb[0]
+        pi = [i for i in range(1, b_.arg_count + 1) if grammar.ast_type_name(b_.locals[i]['ty'])][0]
+        n_ = grammar.ast_type_name(b_.locals[pi]['ty'])
+        for seq in ([Node('child', 'LeftParen'), Node('child', 'Space', False), Node('child', 'Math'), Node('child', 'Space', False), Node('child', 'RightParen'), 'END'],
+                    [Node('child', 'Space', False), Node('child', 'Math'), Node('child', 'Space', False), 'END'],      # (the delimiters taken off with next() / next_back())
+                    [Node('child', 'MathIdent'), Node('child', 'Space', False), Node('child', 'MathIdent'), 'END']):
+            res = sm.evaluate_sequence(w, b_, pi, K, seq, from_start=True, extra={pi: tip.typed(n_, Node('parent', K))})
+            want = sum(1 for x in seq if isinstance(x, Node) and x.kind == 'Space')
+            cons = {'converter': e2.last(fn), 'parent': K, 'sequence': ' '.join(x.kind if isinstance(x, Node) else x for x in seq)}
+            worst = None
+            for item in res or []:
+                if not (len(item) > 3 and item[3] and item[3][0] == 'ended' and isinstance(item[3][1], Doc)):
+                    continue
+                flat = item[3][1].flat()
+                if any(a[0] == 'conv' and isinstance(a[2], Node) and a[2].tag == 'parent' for a in flat) or \
+                        any(a[0] == 'text' and isinstance(a[1], Text) and a[1].node.tag == 'parent' for a in flat):
+                    continue          # the node itself is handed on / emitted verbatim
+                if not any(a[0] in ('conv', 'text') for a in flat):
+                    continue
+                got = sum(1 for a in flat if a[0] in ('space', 'hardline') or (a[0] == 'conv' and isinstance(a[2], Node) and a[2].kind == 'Space'))
+                if got < want and (worst is None or got < worst):
+                    worst = got
+            seq_checked.append(cons)
+            if worst is not None:
+                r.bad(cons, '%s|%s|sequence-space' % (e2.last(fn), K),
+                      '%s returns, for the children <%s> of a %s node, a document with %d of their %d whitespace tokens: spaces between math atoms are removed'
+                      % (e2.last(fn), cons['sequence'], K, worst, want))
+            else:
+                r.ok(cons, 'the whitespace tokens of the sequence are in the returned document (or the node is handed on)')
     for (fn, parent), wholes in sorted(extra.items()):
         if parent not in ('Math', 'MathDelimited'):
             continue
